@@ -379,3 +379,25 @@ Proof.
   - unfold NoDupKeys. cbn. repeat constructor; cbn; intuition discriminate.
   - intros e [<-|[<-|[]]]; exists ex_h; split; try reflexivity; discriminate.
 Qed.
+
+(* valid non-NFC names are inside Wf: "cafe" + U+0301 and "caf" + U+00E9 are two different
+   well-formed listings with different bytes (no Unicode normalisation anywhere) *)
+Definition ex_decomposed : tree :=
+  [ {| e_key := [[100; 111; 99; 115]; [99; 97; 102; 101; 769]]; e_meta := None; e_hash := Some (s_md5, ex_h) |} ].
+Definition ex_composed : tree :=
+  [ {| e_key := [[100; 111; 99; 115]; [99; 97; 102; 233]]; e_meta := None; e_hash := Some (s_md5, ex_h) |} ].
+Example ex_nfc_twins_distinct :
+  Wf ex_decomposed /\ Wf ex_composed /\ as_bytes false ex_decomposed <> as_bytes false ex_composed.
+Proof.
+  split; [repeat constructor | split; [repeat constructor|]].
+  intros E. apply (as_bytes_inj _ _) in E; [|repeat constructor|repeat constructor].
+  apply Permutation_length_1 in E. discriminate.
+Qed.
+
+(* the listing is ordered by the joined path, not by the key tuple: ("d","x") < ("d.e","y") as
+   tuples, but "d.e/y" < "d/x" - whichever way they are inserted *)
+Definition ex_dx : entry := {| e_key := [[100]; [120]]; e_meta := None; e_hash := Some (s_md5, ex_h) |}.
+Definition ex_dey : entry := {| e_key := [[100; 46; 101]; [121]]; e_meta := None; e_hash := Some (s_md5, ex_h) |}.
+Example ex_tuple_order_vs_path_order :
+  sort_entries [ex_dx; ex_dey] = [ex_dey; ex_dx] /\ sort_entries [ex_dey; ex_dx] = [ex_dey; ex_dx].
+Proof. split; reflexivity. Qed.
